@@ -1759,6 +1759,14 @@ package leveldb
 //@ func Open
 //@   props C18
 //@   safety off
+// (a session that failed to open is shut by Open's deferred call, and shutting a session replaces a manifest whose last
+// append failed - F14; a read-only session has no manifest writer and so nothing to replace: a new session starts
+// without one and a read-only openDB makes none (the writer is made by newManifest, which creates a file, and a
+// read-only open creates none, as proved above) - both stated as assumptions here and listed in the evidence)
+//@   at call newSession#1
+//@     assume [C18:a-new-session-has-no-manifest-writer] ret1 != nil || (ret0 != nil && ret0.manifest == nil)
+//@   at call openDB#1
+//@     assume [C18:a-read-only-open-makes-no-manifest-writer] (s.o != nil && s.o.Options != nil && s.o.Options.ReadOnly) ==> s.manifest == nil
 //@   guarantees [C18:read-only-open-never-creates-a-db] (s != nil && s.o != nil && s.o.Options != nil && s.o.Options.ReadOnly) ==> (calls("storage.Storage.Create") == old(calls("storage.Storage.Create")) && calls("storage.Storage.Remove") == old(calls("storage.Storage.Remove")) && calls("storage.Storage.Rename") == old(calls("storage.Storage.Rename")) && calls("storage.Storage.SetMeta") == old(calls("storage.Storage.SetMeta")))
 // ... and OpenFile / RecoverFile open the directory the way the options say: read-only when the DB is.
 //@ func OpenFile
@@ -2373,10 +2381,27 @@ package leveldb
 
 // C18 / C07: shutting the session. The table cache is closed and the manifest writer with its file; afterwards the
 // session holds neither (a second close, or a late commit, finds nil rather than a closed file).
+// C08 / C11: a manifest whose last append failed may hold the record of a commit that was reported as failed (F14).
+// The session does not leave such a manifest behind when it is shut: it writes a fresh one - a snapshot of the version
+// that is current - first, so that the next open does not replay a record whose tables the caller has discarded.
+//@ ghost var gShutReplaced bool
+//@ func (*session).close
+//@   props C08 C11
+//@   safety off
+//@   at entry
+//@     ghost gShutReplaced = false
+//@   at before call (*session).newManifest#1
+//@     assert [C08,C11:the-replacement-is-a-snapshot-of-the-current-version] isnil(arg0) && arg1 == v
+//@   at call (*session).newManifest#1
+//@     ghost gShutReplaced = true
+//@   ensures [C08,C11:a-manifest-whose-last-append-failed-is-replaced-before-the-session-is-shut] (old(s.manifestBroken) && old(s.manifest) != nil) ==> gShutReplaced
 //@ func (*session).close
 //@   props C18 C07
 //@   safety off
 //@   ensures [C07,C18:the-manifest-is-not-kept] s.manifest == nil && s.manifestWriter == nil
+// (C18: only a session with a manifest writer can have a manifest to replace; shutting one without - a read-only
+// session, or one that never got as far as making a manifest - creates, removes and renames nothing)
+//@   ensures [C18:a-session-without-a-manifest-writer-writes-nothing-when-shut] old(s.manifest) == nil ==> (calls("storage.Storage.Create") == old(calls("storage.Storage.Create")) && calls("storage.Storage.Remove") == old(calls("storage.Storage.Remove")) && calls("storage.Storage.Rename") == old(calls("storage.Storage.Rename")) && calls("storage.Storage.SetMeta") == old(calls("storage.Storage.SetMeta")))
 //@   at before call (*Writer).Close#1
 //@     assert [C07,C18:the-manifest-that-is-closed-is-the-sessions] recv == s.manifest
 //@   at before call io.Closer.Close#1
